@@ -699,7 +699,22 @@ fn families_of(prop: &str, tier: Tier) -> Vec<Cfg> {
             k.max_reqs = 0;
             k.late_timer_ms = 1;
             k.dev = 2;
-            vec![a, b, c, d, e, k]
+            // every way the application can end a connection while acknowledgements are owed (returned by recv and
+            // not yet written, or stuck behind a stalled write), followed by a resumed connection on which the
+            // broker retransmits
+            let mut g = Cfg::base("C04-connection-ended-by-the-application-with-acknowledgements-owed");
+            g.props = vec!["C04"];
+            g.ops = vec![OpK::Recv, OpK::Poll, OpK::Disconnect, OpK::DropConn, OpK::Forget, OpK::MarkDead];
+            g.io = IoMenu::benign();
+            g.io.write_pending = true;
+            g.cancel = true;
+            g.broker.script = vec![inpub(2, 9), inpub(1, 5)];
+            g.broker.dup_retransmit = true;
+            g.max_ops = if q { 7 } else { 9 };
+            g.max_conns = if q { 2 } else { 3 };
+            g.max_reqs = 0;
+            g.dev = if q { 2 } else { 3 };
+            vec![a, b, c, d, e, k, g]
         }
         "C05" => {
             let mut a = Cfg::base("C05-handshake-variants");
